@@ -2,6 +2,8 @@
 import importlib
 
 REGISTRY = {
+    "C19": {"engine": "sim.world", "level": "exploration",
+            "tiers": {"quick": {"runs": 480, "wall": 300}, "thorough": {"runs": 12000, "wall": 3000}}},
     "C07": {"engine": "sim.world", "level": "fault_enumeration",
             "tiers": {"quick": {"runs": 240, "wall": 300}, "thorough": {"runs": 3000, "wall": 3000}}},
     "C08": {"engine": "sim.world", "level": "exploration",
@@ -27,6 +29,24 @@ META = {
     "C01": {"technique": _T + "population-world simulator with value/storage fingerprints of every party after every event (non-interference) and clone-faithfulness model",
             "design_ref": "DESIGN.md 4 (C01)", "level_text": "seeded exploration of clone/learn/mutate/select/discard/restore histories over all 11 algorithms and 5 observation families; every event is followed by a bystander check over all live agents and ghosts; evidence, not proof",
             "level_note": "CPU only; tiny networks; batches are synthetic (drawn from the spaces) but shaped by the real Transition/ReplayBuffer; bit-equality relies on one torch thread"},
+    "C02": {"technique": _T + "population-world simulator: generations of select/mutate/learn with SimRng-driven Mutations, coherence invariants after every mutation round",
+            "design_ref": "DESIGN.md 4 (C02)", "level_text": "seeded exploration of mutation probability vectors (incl. single-kind and degenerate), pre-/in-training mutation, mutate_elite on/off over all algorithms; after each round: optimizer parameter identity and lr, target architecture and weights, critics following the policy's architecture delta, truthful mut label, act + learn liveness",
+            "level_note": "accelerator / torch.compile branches of Mutations are outside; 'same architecture change' is compared on init_dict deltas with a bound-blocked allowance"},
+    "C05": {"technique": _T + "population-world simulator with a recording seam on the tournament's np.random draws and a reference tournament over scheduler-assigned fitness histories",
+            "design_ref": "DESIGN.md 4 (C05)", "level_text": "seeded exploration of population sizes 1-6, tournament sizes up to pop+2, evaluation windows, elitism, ties / negative / unequal-length fitness histories, configured size != len(population), repeated generations",
+            "level_note": "parent identification uses faithful-copy comparison (C01 oracle); ties accept any tied agent"},
+    "C06": {"technique": _T + "population-world simulator: RL-hyperparameter mutation rounds on populations built from one shared or private HyperparameterConfig, RLParameter.mutate definition as reference model",
+            "design_ref": "DESIGN.md 4 (C06)", "level_text": "seeded exploration of float/int parameters with default, wide, sticking-integer and at-bound ranges, distinct or equal start values, interleaved clone / select / learn; every optimizer group's lr and parameter identity checked after each mutation",
+            "level_note": "current values are generated inside the configured range, as the quantifier says"},
+    "C07": {"technique": _T + "crash-point sweep: history replayed twice (original + never-crashed twin), checkpoint written to a simulated file with write faults, restored through both load paths, same suffix on both",
+            "design_ref": "DESIGN.md 4 (C07)", "level_text": "histories are sampled, crash points within a history are enumerated in the thorough tier (2-3 sampled in quick); fault kinds torn tail, lost tail block, EIO at k-th write, ENOSPC after b bytes with the narrow oracle 'may fail, never wrong data'",
+            "level_note": "one file, no directory-level crash consistency; AgentWrapper path not driven yet"},
+    "C08": {"technique": _T + "executable reference model of every target network (shadow module updated by the tau rule, compared behaviourally), recomputed loss, done-masking twin run",
+            "design_ref": "DESIGN.md 4 (C08)", "level_text": "seeded exploration of learn streaks directly after construction, clone, each mutation kind and both load paths, tau in {1, .5, .1, .01}, policy delay 1-3, done patterns all-0/all-1/mixed, for DQN/double DQN, CQN, Rainbow (1-step, n-step, PER), DDPG, TD3, MADDPG, MATD3",
+            "level_note": "share_encoders=False and no BatchNorm encoders in this check (tied encoders are not soft-updated by design); loss value recomputed for DQN, DDPG, TD3 only"},
+    "C19": {"technique": _T + "bandit world: decisions interleaved with learn / mutation / clone / checkpoint round trips, independent autograd features and a float64 Gram accumulator as reference",
+            "design_ref": "DESIGN.md 4 (C19)", "level_text": "seeded exploration for NeuralUCB and NeuralTS, lambda in {0.5, 1, 2}, masks, vector and image contexts; after every decision sigma_inv @ (lambda I + sum g g^T) = I within 5e-3, symmetric, positive definite, right size, exp_layer identity",
+            "level_note": "tolerance 5e-3 absolute on float32 sigma_inv; the model restarts whenever the library re-initialises the matrix"},
     "C09": {"technique": _T + "buffer op-history simulator with a Python-list reference model and id-carrying transitions",
             "design_ref": "DESIGN.md 4 (C09)", "level_text": "seeded exploration of add/sample/clear histories with widths biased to the wrap-around edge, for the single- and multi-agent buffer and 5 observation kinds; reference model checked after every op",
             "level_note": "content is read back through the public sample() API; float32 ids are exact below 2**22"},
